@@ -20,7 +20,7 @@ TRACE = "Trace_BlobStore"
 # subjects recorded to deviate (known_findings.json): the harness writes their runs to files of their own, so that
 # TLC never has to re-validate the other subjects of a file because of them (purely a cost matter: any subject
 # that is rejected is cut out and re-judged on its own by ctx.validate)
-ISOLATE = "huff:trained,zipoffset:,dictzip:,zerolen:new,trie:memory,triekey:,triebuild:memory,stack:huff_zstd_mem"
+ISOLATE = "zipoffset:,triekey:,mem:from_data_top"
 
 
 def _flip_digest(d):
@@ -92,6 +92,87 @@ def corrupt_iter_ids(run):
             e["r"] = e["r"] + [123456]
             return run
     return None
+
+
+def corrupt_keys(run):
+    """keys() / keys_with_prefix() lists a key that was never stored"""
+    for e in run:
+        if e.get("op") == "keys" and e.get("ok"):
+            e["r"] = e["r"] + [[122, 122, 122, 122]]
+            return run
+    return None
+
+
+def corrupt_iter_blobs(run):
+    """iter_blobs yields other bytes for a record"""
+    for e in run:
+        if e.get("op") == "iter_blobs" and e.get("ok") and e["r"]:
+            e["r"][0]["d"] = _flip_digest(e["r"][0]["d"])
+            return run
+    return None
+
+
+def corrupt_put_batch_keys(run):
+    """put_batch_with_keys reports the same id for two entries"""
+    for e in run:
+        if e.get("op") == "put_batch_keys" and e.get("ok") and len(e["ids"]) >= 2:
+            e["ids"][1] = e["ids"][0]
+            return run
+    return None
+
+
+def corrupt_build_keyed(run):
+    """after a keyed build get_by_key of a stored key returns other bytes"""
+    if not any(e.get("op") == "build_keyed" and e.get("ok") for e in run):
+        return None
+    return corrupt_key_answer(run)
+
+
+def corrupt_build_at(run):
+    """a store built from an id -> record map reports one record less"""
+    for e in run:
+        if e.get("op") == "build_at" and e.get("ok") and e["ds"]:
+            e["len_after"] = e["len_after"] - 1
+            return run
+    return None
+
+
+def corrupt_mixed_shape(run):
+    for e in run:
+        if e.get("op") == "mixed_shape":
+            e["nf"] = e["nf"] + 1
+            return run
+    return None
+
+
+def corrupt_after_maintenance(run):
+    """a maintenance call (reserve / optimize / flush / finalize ...) is followed by a changed record"""
+    seen = False
+    for e in run:
+        if e.get("op") == "maintenance":
+            seen = True
+        elif seen:
+            if e.get("op") == "get" and e.get("ok"):
+                e["d"] = _flip_digest(e["d"])
+                return run
+            if e.get("op") == "probe":
+                for g in e["get"]:
+                    if g["ok"]:
+                        g["d"] = _flip_digest(g["d"])
+                        return run
+    return None
+
+
+def _selftest_any(ctx, files, mutate, what):
+    """the first file holding a run the mutation applies to"""
+    for p in files:
+        try:
+            ctx.selftest_corrupt(TRACE, p, mutate, what)
+            return
+        except vlib.ToolError as ex:
+            if "no run suitable" not in str(ex):
+                raise
+    raise vlib.ToolError("binding self-test: no run suitable for corruption (%s)" % what)
 
 
 def corrupt_put_id(run):
@@ -201,6 +282,13 @@ def run(ctx):
     ctx.selftest_corrupt(TRACE, plain, corrupt_get_batch, "get_batch reports a live record as absent")
     ctx.selftest_corrupt(TRACE, plain, corrupt_remove_batch_count, "remove_batch count changed by +1")
     ctx.selftest_corrupt(TRACE, plain, corrupt_iter_ids, "iter_ids lists an id never handed out")
+    _selftest_any(ctx, b1files, corrupt_iter_blobs, "iter_blobs yields other bytes for a record")
+    _selftest_any(ctx, b1files, corrupt_after_maintenance, "a record read after a maintenance call changed")
+    _selftest_any(ctx, b1files, corrupt_keys, "keys() lists a key never stored")
+    _selftest_any(ctx, b1files, corrupt_put_batch_keys, "put_batch_with_keys reports one id twice")
+    _selftest_any(ctx, b1files, corrupt_build_keyed, "get_by_key after a keyed build returns other bytes")
+    _selftest_any(ctx, b1files, corrupt_build_at, "store built from an id map reports one record less")
+    _selftest_any(ctx, b1files, corrupt_mixed_shape, "MixedLenBlobStore fixed_count changed by +1")
     keyed = _first_file_with(b1files, lambda h: h.get("keyed") is True)
     if keyed:
         ctx.selftest_corrupt(TRACE, keyed, corrupt_key_answer, "digest returned by get_by_key changed by one")
